@@ -8,6 +8,7 @@ Orchestrator, and lets Coq judge:  impl = spec, model ideal = spec, impl = model
 from __future__ import annotations
 
 import json
+import os
 import re
 import shutil
 import subprocess
@@ -19,6 +20,7 @@ from harness.common import (VERIF, drain_failures, ensure_repo_on_path, install_
 from harness.framework import Check
 
 PROP = "C05"
+PROCS = int(os.environ.get("VERIF_PROCS", "8"))   # worker processes for implementation runs (and coqc shards when lowered)
 HEADER = ("From TL Require Import Lib.Base Lib.GenTypes Model.ConfigTypes Gen.ConfigGen Model.Config Model.ConfigRun Actual.ConfigActual.\n"
           "From Coq Require Import ZArith.\n")
 UNPARSABLE = "UNPARSABLE"
@@ -244,6 +246,9 @@ def suffix_fmt(suffix: str) -> str:
     return {".yaml": "yaml", ".yml": "yaml", ".json": "json"}.get(suffix, "toml")
 
 
+N_FILLERS = 16   # lint_files_parallel only starts worker processes for >= 2 * min(8, cpu_count) paths
+
+
 def write_project(case: dict, d: Path):
     """write carriers + sources; returns (global args, command args after the command name, targets)"""
     proj = case["proj"]
@@ -260,7 +265,10 @@ def write_project(case: dict, d: Path):
     if dash is not None:
         fn = "custom" + dash["suffix"]
         if dash["file"] is not None:
-            (d / fn).write_text(render_doc(dash["file"], suffix_fmt(dash["suffix"])))
+            text = render_doc(dash["file"], suffix_fmt(dash["suffix"]))
+            if dash["file"] == {} and dash.get("empty_style") == "comment" and suffix_fmt(dash["suffix"]) == "yaml":
+                text = "# thailint configuration: everything at its default\n"   # parses to nothing at all
+            (d / fn).write_text(text)
         (pre if dash["pos"] == "global" else post).extend(["--config", fn])
     files = render_source(case["unit"], case["lang"], case["metrics"])
     for n, t in files.items():
@@ -273,11 +281,18 @@ def run_impl(case: dict) -> dict:
     u = UNITS[case["unit"]]
     with scratch_dir("tv-c05-") as d:
         pre, post, targets = write_project(case, d)
-        if case["via"] == "cli":
+        if case["via"] in ("cli", "par"):
             ov = []
             for o, z in case["overrides"]:
                 ov += [o, str(z)]
-            args = [*pre, u["cmd"], "--format", "json", *post, *ov, *targets]
+            extra = []
+            if case["via"] == "par":
+                # enough paths that worker processes really run; the fillers are of no language any rule looks at
+                for i in range(N_FILLERS):
+                    (d / f"filler_{i}.txt").write_text("filler\n")
+                extra = [f"filler_{i}.txt" for i in range(N_FILLERS)]
+                post = ["--parallel", *post]
+            args = [*pre, u["cmd"], "--format", "json", *post, *ov, *targets, *extra]
             rc, so, se = run_cli(args, cwd=d)
             if rc == 2:
                 return {"exit2": True, "n": 0, "args": args, "stderr": _last(se)}
@@ -294,8 +309,15 @@ def run_impl(case: dict) -> dict:
         logging.getLogger("src.linter_config.ignore").setLevel(logging.CRITICAL)
         from src.orchestrator.core import Orchestrator
         try:
-            orch = Orchestrator(project_root=d)
-            vs = orch.lint_files([d / t for t in targets])
+            if case["via"] == "linter":
+                # the documented library API: Linter(config_file=..., project_root=...)
+                from src.api import Linter
+                dash = case["proj"].get("dash")
+                linter = Linter(config_file=(d / ("custom" + dash["suffix"])) if dash else None, project_root=d)
+                vs = linter.lint(d / targets[0]) if len(targets) == 1 else linter.orchestrator.lint_files([d / t for t in targets])
+            else:
+                orch = Orchestrator(project_root=d)
+                vs = orch.lint_files([d / t for t in targets])
         except Exception as e:  # noqa: BLE001 - the CLI maps every exception of a run to exit code 2
             return {"exit2": True, "n": 0, "exc": f"{type(e).__name__}: {str(e)[:120]}", "failures": drain_failures()}
         mine = [v for v in vs if v.rule_id.startswith(u["prefix"])]
@@ -358,8 +380,8 @@ def coq_case(case: dict) -> str:
             f"p_subdir := {coq.coq_bool(bool(p.get('subdir')))} |}}")
     ovs = coq.coq_list([f"({coq.coq_string(o)}, {coq_z(z)})" for o, z in case["overrides"]])
     ms = coq.coq_list([f"({coq.coq_string(k)}, {coq_z(v)})" for k, v in case["metrics"].items()])
-    cmd = UNITS[case["unit"]]["cmd"] if case["via"] == "cli" else ""
-    if case["via"] == "api" and not case["overrides"] and UNITS[case["unit"]]["cmd"]:
+    cmd = UNITS[case["unit"]]["cmd"] if case["via"] in ("cli", "par") else ""
+    if case["via"] == "api" and not case["overrides"] and UNITS[case["unit"]]["cmd"]:  # ("linter": Linter(config_file=...) replaces the whole configuration for every unit, dry included: no command)
         cmd = UNITS[case["unit"]]["cmd"]  # a library run behaves as the command without options
     return (f"{{| c_proj := {proj}; c_cmd := {coq.coq_string(cmd)}; c_unit := {coq.coq_string(case['unit'])}; "
             f"c_lang := {coq.coq_string(case['lang'])}; c_fname := {coq.coq_string(case['fname'])}; c_overrides := {ovs}; c_metrics := {ms} |}}")
@@ -397,7 +419,7 @@ def eval_shards_th(workdir: Path, shards: list[str], th: Path):
         f = workdir / f"cases_{i}.v"
         f.write_text(HEADER + "\n" + body + "\n")
         jobs.append((f, th))
-    with ThreadPoolExecutor(max_workers=12) as ex:
+    with ThreadPoolExecutor(max_workers=12 if PROCS >= 8 else PROCS) as ex:
         outs = list(ex.map(_run_shard_th, jobs))
     res = []
     for (rc, so, se), (f, _) in zip(outs, jobs):
@@ -634,7 +656,17 @@ def gen_case(r, i, unit=None) -> dict:
                         d[k][r.choice([lang, lang, r.choice(LANGS)])] = r.choice(NONMAPS)
                     else:
                         d[k] = r.choice(NONMAPS)
-    if u["cmd"] and r.random() < 0.07:
+    dash = proj["dash"]
+    if dash is not None and dash["pos"] == "cmd" and dash["file"] is not None and not overrides:
+        # the same explicit file through the other entry points (a missing file is not an error for Linter(): not generated)
+        x = r.random()
+        if x < 0.3:
+            case["via"] = "linter"
+        elif x < 0.36:
+            case["via"] = "par"
+        if dash["file"] == {} and r.random() < 0.5:
+            dash["empty_style"] = "comment"
+    if u["cmd"] and r.random() < 0.07 and case["via"] in ("api", "cli"):
         to_subdir(case)
     return case
 
@@ -828,6 +860,48 @@ def level_cases():
                             proj[carrier] = {unit: body}
                         out.append({"i": f"level:{unit}:{lang}:{opt}:{level}:{bad}", "unit": unit, "lang": lang, "via": via, "metrics": m,
                                     "proj": proj, "overrides": [], "fname": "case_src" + EXT[lang]})
+    return out
+
+
+def entry_cases(tier: str):
+    """an EXPLICIT configuration that says nothing about the unit - comment-only YAML, `{}` JSON, a file with only an unrelated
+    section - next to a discovered project configuration that changes the unit's verdict (switch flipped / limit on the other
+    side of the measure), through every entry point: command line, command line with --parallel and enough paths that worker
+    processes really run, and the library API Linter(config_file=..., project_root=...).  The explicit file must win: all defaults."""
+    out, n = [], 0
+    kinds = [("comment-yaml", ".yaml", {}, "comment"), ("braces-json", ".json", {}, None), ("braces-yml", ".yml", {}, None),
+             ("unrelated-section", ".yaml", None, None)]
+    par_units = ("nesting", "srp", "dry", "magic-numbers", "stringly-typed", "performance") if tier == "quick" else tuple(u for u in UNITS if UNITS[u]["cmd"])
+    for unit, u in UNITS.items():
+        lang = u["langs"][0]
+        opt0 = u["limits"][0][0] if u.get("limits") else None
+        m = focus_metrics(u, opt0)
+        for _, mm in u.get("lists", []):
+            m[mm] = MAGIC_VALUES[-1]
+        for _, mm in u.get("switches", []):
+            m[mm] = 1
+        for mm in u.get("always", []):
+            m[mm] = 1
+        flipped = {unit: {"enabled": not u.get("enabled_default", True)}}
+        other = "srp" if unit != "srp" else "nesting"
+        for kind, suffix, doc, style in kinds:
+            doc = {other: {"enabled": True}} if doc is None else doc
+            for via in ("linter", "cli", "par"):
+                if via != "linter" and not u["cmd"]:
+                    continue
+                if via == "par" and (unit not in par_units or (tier == "quick" and kind == "braces-yml")):
+                    continue
+                if via == "cli" and tier == "quick" and n % 2:
+                    n += 1
+                    continue
+                carrier = ("yaml", "json", "pyproject")[n % 3]
+                n += 1
+                proj = {"yaml": None, "json": None, "pyproject": None, "dash": {"pos": "cmd", "suffix": suffix, "file": dict(doc)}}
+                if style:
+                    proj["dash"]["empty_style"] = style
+                proj[carrier] = flipped
+                out.append({"i": f"entry:{unit}:{kind}:{via}:{carrier}", "unit": unit, "lang": lang, "via": via, "metrics": dict(m), "proj": proj,
+                            "overrides": [], "fname": "case_src" + EXT[lang]})
     return out
 
 
@@ -1059,7 +1133,7 @@ def run(tier: str, seed: int, replay: str | None = None) -> int:
         cases = [normalise(rep["violation"]["case"])] if "case" in rep.get("violation", {}) else []
     else:
         n_rand = (480 if tier == "quick" else 5200) * min(scale, 3)
-        cases = (corpus_cases() + boundary_cases() + level_cases() + carrier_cases(seed) + layout_cases() + nonmap_cases()
+        cases = (corpus_cases() + boundary_cases() + level_cases() + carrier_cases(seed) + layout_cases() + nonmap_cases() + entry_cases(tier)
                  + matrix_cases(seed, 0.45 if tier == "quick" else 1.0) + gen_cases(seed, n_rand))
         if tier == "quick":  # cap the number of CLI subprocesses: turn surplus option-free CLI cases into library runs
             budget = 200 * min(scale, 2)
@@ -1069,7 +1143,7 @@ def run(tier: str, seed: int, replay: str | None = None) -> int:
                         budget -= 1
                     else:
                         c["via"] = "api"
-    impls = pool_map(run_impl, cases, procs=8)
+    impls = pool_map(run_impl, cases, procs=PROCS)
     recorded_verdicts = None
     with scratch_dir("tv-c05-coq-") as wd:
         try:
